@@ -32,7 +32,7 @@ def spec(self, i, j, left=False):
     b0_right_of_b1 = len(l0) >= len(l1) + len(b1.dom)
     b0_left_of_b1 = len(l1) >= len(l0) + len(b0.cod)
     if not b0_right_of_b1 and not b0_left_of_b1:
-        raise InterchangerError
+        raise InterchangerError(b0, b1)
     if b0_left_of_b1 and (left or not b0_right_of_b1):
         m = l1[len(l0) + len(b0.cod):]
         new1 = RawLayer(l0 @ b0.dom @ m, b1, r1)
